@@ -30,7 +30,11 @@ LEVEL_NOTE = ("Trusted: Lean kernel (axioms propext, Classical.choice, Quot.soun
               "outside the property (it leaves the ancillas dirty on purpose).")
 LEAN_TARGETS = ["QclibModel.Props.C05", "QclibModel.Props.C05Majority"]
 THEOREMS = ["Qclib.C05_toffoli_relphase", "Qclib.C05_halves", "Qclib.C05_vchain", "Qclib.C05_vchain_relphase",
-            "Qclib.C05_linear", "Qclib.C05_ctrl_state", "Qclib.C05_majority", "Qclib.C05_majority_sizes"]
+            "Qclib.C05_linear", "Qclib.C05_ctrl_state", "Qclib.C05_majority", "Qclib.C05_majority_sizes",
+    "Qclib.C05_vchain_action_only",
+    "Qclib.C05_action_only_bracket",
+    "Qclib.C05_sp_comm",
+    "Qclib.C05_linear_action_only"]
 TRUSTED = [
     "qiskit UGate(theta,0,0), CXGate, CCXGate, C3XGate, C4XGate matrices and the mcx(mode='noancilla') dispatch equal "
     "matU / applyMcu of Sem/Denote.lean (validated numerically each run)",
@@ -412,7 +416,9 @@ def toffoli_entry(ctx):
     from flatten import flatten, to_lines
     r = ctx.rng
     for cancel in (None, "left", "right"):
-        for mode in ("default", "explicit", "placed"):
+        # `controls is None or target is None`: both missing, both given, and each disjunct alone (boundary pass): a
+        # single missing argument falls back to the first three qubits, as the code defines
+        for mode in ("default", "explicit", "placed", "only-controls", "only-target"):
             n = 3 if mode == "explicit" else r.randint(4, 5)
             key = f"toffoli.ccx:cancel={cancel}:{mode}"
             rep = {"kind": "toffoli.ccx", "method": "entry", "params": {"cancel": cancel, "mode": mode}}
@@ -424,6 +430,14 @@ def toffoli_entry(ctx):
                 elif mode == "explicit":
                     where = [0, 1, 2]
                     Toffoli.ccx(qc, [qc.qubits[0], qc.qubits[1]], qc.qubits[2], cancel)
+                elif mode == "only-controls":
+                    where = [0, 1, 2]
+                    ctx.count("boundary:Toffoli.ccx:one argument missing")
+                    Toffoli.ccx(qc, controls=[n - 1, n - 2], cancel=cancel)
+                elif mode == "only-target":
+                    where = [0, 1, 2]
+                    ctx.count("boundary:Toffoli.ccx:one argument missing")
+                    Toffoli.ccx(qc, target=n - 1, cancel=cancel)
                 else:
                     where = r.sample(range(n), 3)
                     Toffoli.ccx(qc, controls=where[:2], target=where[2], cancel=cancel)
@@ -477,6 +491,56 @@ def tie_case(ctx, kind, p):
         return
     ctx.tie(op, ["REJECT"] if circ is None else to_lines(gates))
     ctx.count(f"tie:{kind}:" + ("reject" if circ is None else "k=%d" % p["k"]))
+
+
+# ------------------------------------------------------------------------------------------------
+# boundary-value pass (sizes next to every comparison of mcx.py)
+# ------------------------------------------------------------------------------------------------
+#   McxVchainDirty  num_controls - 2 > 0; num_ctrl == 2 / == 1; `not relative_phase and num_ctrl == 3 and num_target < 2`
+#                   (k = 2, 3, 4 x t = 1, 2 x rp: tie k <= 7 all combinations, dense oracle k <= 5);  i < num_ctrl - 2;
+#                   toffoli_multi_target range(num_targets - 1) with 1, 2, 3 targets
+#                   -> here: t = 2, 3 beyond the dense cap (k = 6..9, sparse), gate lists for k = 8, 9
+#   LinearMcx       num_qubits < 5 / == 5 / == 6 / == 7 / else, k_2 = ceil(nq / 2), k_1 = k - k_2 + 1 (odd / even nq)
+#                   -> k = 1..10 tied, operator k <= 7, random state k = 8, 9, sparse k = 10, 11, 14, 17 (run); here k = 12, 13
+#                      sparse so that (k_1, k_2) = (5, 7), (6, 7), (6, 8) follow (3, 4) .. (5, 6) without a gap
+
+def boundary_jobs(ctx):
+    r = ctx.rng
+    jobs = []
+
+    def mixed(k):
+        return "".join("10"[(k - 1 - j) % 2] for j in range(k))
+
+    for k in (8, 9):
+        for t in (1, 2, 3):
+            for rp in (False, True):
+                for ao in (False, True):
+                    for cs in (None, mixed(k)):
+                        ctx.count("boundary:vchain gate list k=8,9")
+                        tie_case(ctx, "vchain", dict(k=k, t=t, cs=cs, rp=rp, ao=ao))
+    for k in (11, 12, 13):
+        for ao in (False, True):
+            for cs in (None, mixed(k)):
+                ctx.count("boundary:linear gate list k=11..13")
+                tie_case(ctx, "linear", dict(k=k, cs=cs, ao=ao))
+    for k in (5, 6, 7, 8, 9):
+        for t in (2, 3):
+            if k + max(k - 2, 0) + t <= DENSE_SV_MAX:
+                continue                      # dense oracle of run()
+            for cs in (None, mixed(k)):
+                p = dict(k=k, t=t, cs=cs, rp=False, ao=False)
+                for mism, nsup in ((0, 0), (0, 4), (1, 3), (2, 2), (1, 0)):
+                    ctx.count("boundary:vchain t=2,3 beyond the dense cap")
+                    idx, amp, desc = make_sparse_input(r, "vchain", p, mism, nsup)
+                    jobs.append(("sparse", ("vchain", p, idx, amp, desc)))
+    for k in (12, 13):
+        for cs in (None, mixed(k)):
+            p = dict(k=k, cs=cs, ao=False)
+            for mism, nsup in ((0, 0), (0, 1), (1, 1), (1, 0), (2, 0)):
+                ctx.count("boundary:linear k=12,13")
+                idx, amp, desc = make_sparse_input(r, "linear", p, mism, nsup)
+                jobs.append(("sparse", ("linear", p, idx, amp, desc)))
+    return jobs
 
 
 def run(ctx, scale=0, with_majority=True):
@@ -553,6 +617,7 @@ def run(ctx, scale=0, with_majority=True):
                     for mism, nsup in ((0, 0), (0, 4), (1, 3), (r.randint(2, 5), 2), (1, 0)):
                         idx, amp, desc = make_sparse_input(r, kind, p, mism, nsup)
                         jobs.append(("sparse", (kind, p, idx, amp, desc)))
+    jobs += boundary_jobs(ctx)
     run_jobs(ctx, jobs)
     ctx.notes.append("dense Operator up to %d qubits (10 in the thorough tier), random dense Statevector up to %d, sparse "
                      "simulation of the real flattened gate list beyond (basis controls/targets, borrowed qubits basis or "
